@@ -222,7 +222,7 @@ def _alarm(signum, frame):
 def check_pair(a):
     import signal
     signal.signal(signal.SIGALRM, _alarm)
-    signal.alarm(int(os.environ.get("AGREE_TIME", "150")))
+    signal.alarm(int(os.environ.get("AGREE_TIME", "900")))
     try:
         return check_pair_(a)
     except PairTimeout:
